@@ -1,6 +1,7 @@
 package main
 
 import (
+	"bytes"
 	"fmt"
 	"strings"
 
@@ -8,78 +9,82 @@ import (
 	"verif/harness/interpgen"
 )
 
-// lifecycle automaton (documented order): BE (BS BO stack* [AO stack* [BC AC stack*]] [AS])* AE stack* (OK|ER)
-// Early OP_RETURN: BS BO stack* BC AC AS.  Errors end the step without AS and go to AE.
+// lifecycle automaton: the same states and transitions as coq/model/Debug.v (lstate / lstep), extended
+// with the stack push/pop callbacks, which may only occur while an opcode runs (after BO), at the end of a
+// script (after AO: alt stack dropped; after AC: pay-to-script-hash bookkeeping) and in the final
+// CheckErrorCondition (after AE of a completed run).
+//
+//	BE (BS BO [AO [BC AC]] AS | BS BO BC AC AS)* (BS [BO [AO [BC AC]]])? AE (OK|ER)
+type lstate int
+
+const (
+	qStart lstate = iota
+	qBE
+	qLoop
+	qBS
+	qBO
+	qAO
+	qBCr
+	qACr
+	qBCe
+	qACe
+	qAEok
+	qAEerr
+	qOk
+	qErr
+)
+
+var lstep = map[lstate]map[string]lstate{
+	qStart: {"BE": qBE},
+	qBE:    {"BS": qBS},
+	qLoop:  {"BS": qBS, "AE": qAEok},
+	qBS:    {"BO": qBO, "AE": qAEerr}, // AE: invalid program counter
+	qBO:    {"AO": qAO, "BC": qBCr, "AE": qAEerr},
+	qAO:    {"AS": qLoop, "BC": qBCe, "AE": qAEerr},
+	qBCr:   {"AC": qACr},
+	qACr:   {"AS": qLoop},
+	qBCe:   {"AC": qACe},
+	qACe:   {"AS": qLoop, "AE": qAEerr},
+	qAEok:  {"OK": qOk, "ER": qErr},
+	qAEerr: {"ER": qErr},
+}
+
+var stackAllowed = map[lstate]bool{qBO: true, qAO: true, qACe: true, qAEok: true}
+
 func lifecycleOK(tr []string) (bool, string) {
-	i := 0
-	next := func() string {
-		if i < len(tr) {
-			return tr[i]
-		}
-		return ""
-	}
-	stack := func() {
-		for i < len(tr) && (tr[i] == "bp" || tr[i] == "ap" || tr[i] == "bq" || tr[i] == "aq") {
-			// push/pop callbacks come in before/after pairs
-			if tr[i] == "bp" && (i+1 >= len(tr) || tr[i+1] != "ap") {
-				return
-			}
-			if tr[i] == "bq" && i+1 < len(tr) && tr[i+1] != "aq" && tr[i+1] != "bq" && tr[i+1] != "bp" {
-				// a failing pop has no after-callback; allowed only when the step then errors
-			}
-			i++
-		}
-	}
 	if len(tr) == 0 {
 		return true, "" // rejected before execution started: no callbacks at all
 	}
-	if next() != "BE" {
-		return false, "does not start with BeforeExecute"
-	}
-	i++
-	for next() == "BS" {
-		i++
-		if next() != "BO" {
-			return false, fmt.Sprintf("BeforeStep not followed by BeforeExecuteOpcode at %d", i)
-		}
-		i++
-		stack()
-		switch next() {
-		case "AO":
-			i++
-			stack()
-			if next() == "BC" {
-				i++
-				if next() != "AC" {
-					return false, fmt.Sprintf("BeforeScriptChange not followed by AfterScriptChange at %d", i)
-				}
-				i++
-				stack()
+	q := qStart
+	for i := 0; i < len(tr); i++ {
+		e := tr[i]
+		switch e {
+		case "bp", "ap", "bq", "aq":
+			if !stackAllowed[q] {
+				return false, fmt.Sprintf("stack callback %s at %d outside opcode / end-of-script / final check (state %d)", e, i, q)
 			}
-		case "BC": // early return
-			i++
-			if next() != "AC" {
-				return false, fmt.Sprintf("BeforeScriptChange not followed by AfterScriptChange at %d", i)
+			nxt := ""
+			if i+1 < len(tr) {
+				nxt = tr[i+1]
 			}
-			i++
-		}
-		if next() == "AS" {
-			i++
+			switch {
+			case e == "bp" && nxt == "ap", e == "bq" && nxt == "aq":
+				i++
+			case e == "bq" && q == qBO && nxt == "AE":
+				// a failing pop has no after-callback: the opcode errors and the step is interrupted
+			default:
+				return false, fmt.Sprintf("unpaired stack callback %s at %d (next %q)", e, i, nxt)
+			}
 			continue
 		}
-		break // error inside the step
+		n, ok := lstep[q][e]
+		if !ok {
+			return false, fmt.Sprintf("callback %s at %d not allowed in state %d", e, i, q)
+		}
+		q = n
 	}
-	if next() != "AE" {
-		return false, fmt.Sprintf("expected AfterExecute at %d, got %q", i, next())
-	}
-	i++
-	stack()
-	if n := next(); n != "OK" && n != "ER" {
-		return false, fmt.Sprintf("expected AfterSuccess/AfterError at %d, got %q", i, n)
-	}
-	i++
-	if i != len(tr) {
-		return false, fmt.Sprintf("callbacks after the end at %d", i)
+	if q != qOk && q != qErr {
+		return false, fmt.Sprintf("trace ends in state %d, not after AfterSuccess/AfterError", q)
 	}
 	return true, ""
 }
@@ -139,5 +144,31 @@ func runC19() {
 	for i := 0; i < nP2SH; i++ {
 		emit19(interpgen.P2SH(r))
 	}
-	c.Stats.Rule = "the interpreter-equivalence programs (opcode x operand matrix sample, grammar-generated programs, P2SH pairs, both eras, sampled flags), each run three ways: no debugger, a recording debugger, a debugger that overwrites every field and every stack byte of every State it is handed; verdict AND error text, callback sequence and all snapshots must coincide; the callback sequence is checked against the lifecycle grammar in Go and, projected to lifecycle events, compared with the model's trace in Coq. distinct = distinct program; non-trivial = at least one step completed"
+	// one program per shape of the lifecycle grammar (the Examples of coq/Properties/C19.v), incl. the
+	// invalid-program-counter step (BS directly followed by AE) after an early return into an empty script
+	for _, b := range []struct {
+		u, l  []byte
+		flags uint32
+	}{
+		{[]byte{0x51}, []byte{0x51, 0x87}, 0},
+		{[]byte{0x51}, []byte{0x00}, 0},
+		{[]byte{0x51}, []byte{0x75, 0x75}, 0},
+		{[]byte{0x51}, []byte{0x63}, 0},
+		{[]byte{0x51}, []byte{0x6a}, interpgen.FGenesis},
+		{[]byte{0x51, 0x6a}, []byte{}, interpgen.FGenesis},
+		{[]byte{0x6a}, []byte{0x51}, interpgen.FGenesis},
+		{[]byte{}, []byte{0x51}, 0},
+		{[]byte{0x51}, []byte{}, 0},
+		{[]byte{}, []byte{}, 0},
+		{[]byte{0x51, 0x6b}, []byte{0x51}, 0},
+	} {
+		emit19((&interpgen.Program{Unlock: b.u, Lock: b.l, Flags: b.flags, Kind: "lifecycle-shape"}).Fix())
+	}
+	// the combined stack limit from both sides in one program (pre-genesis, 1000 items): 3 + 3*332 + 1 = 1000
+	// items is accepted (the step completes), the 1001st is a stack overflow detected after AfterExecuteOpcode —
+	// the one error that is raised by Step itself between two callbacks
+	over := append(bytes.Repeat([]byte{0x00}, 3), bytes.Repeat([]byte{0x6f}, 332)...)
+	over = append(over, 0x00, 0x00)
+	emit19((&interpgen.Program{Unlock: []byte{}, Lock: over, Flags: 0, Kind: "lifecycle-stack-limit"}).Fix())
+	c.Stats.Rule = "the interpreter-equivalence programs (opcode x operand matrix sample, grammar-generated programs, P2SH pairs, both eras, sampled flags), each run three ways: no debugger, a recording debugger, a debugger that overwrites every field and every stack byte of every State it is handed; verdict AND error text, callback sequence and all snapshots must coincide; the callback sequence is checked against the lifecycle grammar in Go and, projected to lifecycle events, compared with the model's trace in Coq. distinct = distinct program; one program per shape of the lifecycle grammar and one reaching the combined stack limit exactly and exceeding it by one are added. non-trivial = at least one step completed"
 }
